@@ -3,6 +3,7 @@ from .common import *
 from .macros import *
 from . import macros as mac
 
+PER_TARGET = True      # every rule below looks at one target configuration at a time (check.py may fork one worker per target)
 NEEDS_WS = True
 DECIDED = ("for every arm of fake! as rustc parsed it at check time: R8.1 one well-typed use per arm (and per instantiation shape) is accepted "
            "by rustc (compile witness; cross-checked with the `meta_variable_misuse` lint on the macro definition); R8.2 the instantiation "
